@@ -5,7 +5,8 @@ hashed lease secrets on the newest container schemas, agreement of the lease
 struct formats with their pack/unpack sites and the hash width, hashing of candidate secrets, the lease
 slot layout and its count/offset field accessors, renewal independent of available space, slot-numbered
 lease enumeration, mutable slot occupancy (empty marker, where a new lease may go), the intact move of the
-extra-lease block when a mutable container grows, and that a matched renew secret never ends in 'no such lease'.
+extra-lease block when a mutable container grows, that a matched renew secret never ends in 'no such lease', and that
+a stored (hashed) lease never reaches the serializer again as a plain lease (no second hashing of its secrets).
 DESIGN.md section 5, C25.  (Lease isolation from data writes is C23.2/C23.6.)"""
 from sa.h import *
 
@@ -54,7 +55,16 @@ EXPLANATION = (
     "fill of at most new - position bytes: old and new block overlap when the container grows by less than the block size), and no call that "
     "modified the file returns without the copy and the header update; "
     "(11) renew_lease (both containers) reaches no raise statement once some lease's is_renew_secret(renew_secret) held (boolean flag locals "
-    "are followed), whether or not the expiry had to move - otherwise add_or_renew_lease would add a duplicate for a known secret.  "
+    "are followed), whether or not the expiry had to move - otherwise add_or_renew_lease would add a duplicate for a known secret; "
+    "(12) the hashed representation is closed - a stored lease never returns to the serializer as a plain LeaseInfo, whose already-hashed "
+    "secrets would be hashed a second time so that the record stops answering to its secret: HashedLeaseSerializer.serialize reaches "
+    "_hash_lease_info only past a type test that no object of the wrapper class (what unserialize / _hash_lease_info construct) can pass; the "
+    "wrapper class is not a subclass of the plain lease class (what the record readers given to the serializer build); every method that the "
+    "wrapper's proxyForInterface base forwards to the wrapped lease, that returns a lease object there (self, a copy of self, a construction of "
+    "the class) and that some code outside the two classes calls (today: renew) is overridden by the wrapper with wrapper-typed returns only "
+    "(a deleted override is reported as a violation, by C25.5 as well, not as a vanished anchor); the containers hand _write_lease_record only a "
+    "lease they were given, a stored lease as enumerated, a plain lease not built from a stored one, or <lease>.m(..) with such a closed m - never "
+    "the wrapped object taken out of its wrapper.  "
     "Undecided: hash strength, clock values, byte-level file effects; whether MutableShareFile.add_lease may refuse for lack of "
     "space when an empty slot could be reused, and the NoSpace comparison of ShareFile.add_or_renew_lease (resource questions, not "
     "part of the stated property); the values of EXTRA_LEASE_OFFSET / ShareFile._lease_offset and which schema an existing container "
@@ -98,6 +108,18 @@ def is_super_call(e, meth):
     """super(...).meth(...)"""
     return isinstance(e, ast.Call) and isinstance(e.func, ast.Attribute) and e.func.attr == meth \
         and isinstance(e.func.value, ast.Call) and isinstance(e.func.value.func, ast.Name) and e.func.value.func.id == "super"
+
+
+def deref(fn, e):
+    """Follow a local name to its single defining expression."""
+    for _i in range(4):
+        if not isinstance(e, ast.Name):
+            break
+        ds = all_defs(fn).get(e.id)
+        if not ds or len(ds) != 1 or ds[0] is None:
+            break
+        e = ds[0]
+    return e
 
 
 def only_return(fn):
@@ -262,6 +284,297 @@ def match_flow(cfg, mset, gate=None):
 
 
 # -------------------------------------------------------------------- rules
+# --------------------------------------------------- the hashed lease representation is closed (C25.12, also C29.9)
+_COPIES = {"attr.assoc", "attr.evolve", "attrs.evolve", "copy.copy", "copy.deepcopy", "copy.replace", "dataclasses.replace"}
+
+
+def _cls_loc(ci):
+    return "%s:%d" % (ci.module.relpath, ci.node.lineno)
+
+
+def _is_sub(ci, other):
+    return any(c.qual == other.qual for c in ci.mro())
+
+
+def _imported_name(fn, call):
+    nm = call_name(call) or ""
+    head, _, rest = nm.partition(".")
+    return fn.module.imports.get(head, head) + ("." + rest if rest else "")
+
+
+def proxied_interface(idx, wc):
+    """(names the proxyForInterface base of `wc` forwards, attribute they are forwarded to); (None, None) when `wc` is
+    not such a proxy."""
+    px = [b for b in wc.base_exprs if isinstance(b, ast.Call) and call_tail(b) == "proxyForInterface"]
+    if not px:
+        return None, None
+    if len(px) != 1 or not px[0].args:
+        raise AnalysisError("%s: cannot read its proxyForInterface base" % wc.qual)
+    ic = idx.resolve_expr_to_class(wc.module, px[0].args[0])
+    if ic is None:
+        raise AnalysisError("%s: the proxied interface %s is not a class of the package" % (wc.qual, norm_plain(px[0].args[0])))
+    pa = arg(px[0], 1, "originalAttribute")
+    pattr = pa.value if isinstance(pa, ast.Constant) and isinstance(pa.value, str) else ("original" if pa is None else None)
+    names = set()
+    for c in ic.mro():
+        names |= set(c.methods)
+    return names, pattr
+
+
+class _Rep:
+    """Which values of a method are objects of the method's own representation: instances of `root` or a subclass
+    (self, copies of self, constructions of the class, calls of own methods that return such values).  quant=any:
+    'may return one'; quant=all: 'returns nothing else'."""
+    def __init__(self, idx, root):
+        self.idx, self.root = idx, root
+
+    def expr(self, fn, e, quant, seen, depth=0):
+        if depth > 6:
+            return False
+        decs = {attr_path(d.func) if isinstance(d, ast.Call) else attr_path(d) for d in fn.node.decorator_list}
+        ps = [a.arg for a in list(fn.node.args.posonlyargs) + list(fn.node.args.args)]
+        is_cm = "classmethod" in decs
+        me = ps[0] if ps and "staticmethod" not in decs else None
+        defs = all_defs(fn)
+        if me in defs:
+            me = None                   # self is re-bound: do not guess
+        rec = lambda x: self.expr(fn, x, quant, seen, depth + 1)
+        if isinstance(e, ast.Name):
+            if e.id == me:
+                return not is_cm
+            ds = defs.get(e.id)
+            if not ds or any(d is None for d in ds):
+                return False
+            return quant([rec(d) for d in ds])
+        if isinstance(e, ast.IfExp):
+            return quant([rec(e.body), rec(e.orelse)])
+        if not isinstance(e, ast.Call):
+            return False
+        f = e.func
+        if _imported_name(fn, e) in _COPIES and e.args:
+            return rec(e.args[0])
+        if me is not None and not is_cm:
+            if isinstance(f, ast.Call) and attr_path(f.func) == "type" and len(f.args) == 1 and attr_path(f.args[0]) == me:
+                return True
+            if attr_path(f) == me + ".__class__":
+                return True
+        if is_cm and me is not None and attr_path(f) == me:
+            return True
+        if isinstance(f, (ast.Name, ast.Attribute)):
+            k = self.idx.resolve_expr_to_class(fn.module, f)
+            if k is not None:
+                return _is_sub(k, self.root)
+        if isinstance(f, ast.Attribute) and me is not None and not is_cm and attr_path(f.value) == me and fn.cls is not None:
+            g = fn.cls.lookup(f.attr)
+            if g is not None and g.qual not in seen:
+                return self.method(g, quant, seen | {g.qual})
+        return False
+
+    def method(self, fn, quant, seen=frozenset()):
+        if any(isinstance(n, (ast.Yield, ast.YieldFrom)) for n in func_own_nodes(fn)):
+            return False
+        rets = [n.value for n in func_own_nodes(fn) if isinstance(n, ast.Return) and n.value is not None]
+        return bool(rets) and quant([self.expr(fn, v, quant, seen | {fn.qual}) for v in rets])
+
+
+def hashed_representation_closed(idx, cg, r, consequence):
+    """The newest lease schema keeps two representations apart by type: a plain lease (cleartext secrets; the serializer
+    hashes them on the way to the file) and the wrapper the serializer hands out for a stored record (secrets already
+    hashed; written as they are).  A stored lease must never come back to the serializer in the plain type - its secrets
+    would be hashed a second time and the record would stop answering to its secret.  Decided here:
+      (a) serialize hashes only under a type test that no wrapper object can pass;
+      (b) the wrapper class is not a subclass of the plain class;
+      (c) every method the wrapper's proxyForInterface base would forward to the wrapped plain lease, that returns a
+          lease object there and that some code calls, is overridden by the wrapper and returns wrapper objects only;
+      (d) what the containers hand to _write_lease_record is a lease they were given, a stored lease as enumerated, a
+          fresh plain lease not built from a stored one, or <lease>.m(..) with m closed as in (c) - never the wrapped
+          object taken out of its wrapper.
+    Sites: the hashing call, each lease-producing interface method, each derived lease written back."""
+    hzq = "storage.lease_schema:HashedLeaseSerializer"
+    hz = idx.cls(hzq)
+
+    def made_class(fn):
+        v = only_return(fn).value
+        k = idx.resolve_expr_to_class(fn.module, v.func) if isinstance(v, ast.Call) and isinstance(v.func, (ast.Name, ast.Attribute)) else None
+        if k is None:
+            raise AnchorVanished("%s does not return a constructed lease wrapper" % short(fn))
+        return k
+    Ws = {}
+    for nm in ("unserialize", "_hash_lease_info"):
+        k = made_class(idx.func(hzq + "." + nm))
+        Ws[k.qual] = k
+    Ws = list(Ws.values())
+    # the plain class: what the record readers given to the hashed serializer build
+    Ks = {}
+    for cs in real_sites(cg, hz.name):
+        fd = arg(cs.call, 1, "from_data")
+        t = idx.resolve_expr(cs.fn.module, fd) if fd is not None else None
+        if not isinstance(t, FuncInfo) or t.cls is None:
+            raise AnalysisError("cannot resolve the record reader given to %s at %s" % (hz.name, cs.loc))
+        Ks[t.cls.qual] = t.cls
+    if not Ks:
+        raise AnchorVanished("no construction of %s found" % hz.name)
+    Ks = list(Ks.values())
+    wnames = "/".join(w.name for w in Ws)
+
+    # (a) the serializer hashes only what provably is not hashed yet
+    sz = idx.func(hzq + ".serialize")
+    lp = first_positional_params(sz)[0]
+    cfg = sz.cfg()
+    fnm = FlowNorm(sz)
+    hn = [n for n in cfg.nodes if calls_at(n, "_hash_lease_info")]
+    if not hn:
+        raise AnchorVanished("HashedLeaseSerializer.serialize no longer calls _hash_lease_info")
+    others = [cs for cs in real_sites(cg, "_hash_lease_info") if cs.fn.qual != sz.qual]
+    if others:
+        raise AnalysisError("_hash_lease_info is also called from %s: cannot decide what it is given" % short(others[0].fn))
+
+    def classes_of(e):
+        out = [idx.resolve_expr_to_class(sz.module, x) for x in (e.elts if isinstance(e, ast.Tuple) else [e])]
+        return None if any(k is None for k in out) else out
+
+    def unhashed_edge(n, lab):
+        if n.kind != "test" or not isinstance(lab, tuple):
+            return False
+        e, pol = n.ast, lab[0] == "T"
+        while isinstance(e, ast.UnaryOp) and isinstance(e.op, ast.Not):
+            e, pol = e.operand, not pol
+        ks = None
+        if isinstance(e, ast.Call) and attr_path(e.func) == "isinstance" and len(e.args) == 2 and attr_path(e.args[0]) == lp:
+            ks = classes_of(e.args[1])
+            exact = False
+        elif isinstance(e, ast.Compare) and len(e.ops) == 1 and isinstance(e.ops[0], (ast.Is, ast.IsNot, ast.Eq, ast.NotEq)):
+            sides = [e.left, e.comparators[0]]
+            ty = [x for x in sides if isinstance(x, ast.Call) and attr_path(x.func) == "type" and len(x.args) == 1 and attr_path(x.args[0]) == lp]
+            if len(ty) == 1:
+                ks = classes_of([x for x in sides if x is not ty[0]][0])
+                exact = True
+                if isinstance(e.ops[0], (ast.IsNot, ast.NotEq)):
+                    pol = not pol
+        if not ks:
+            return False
+        if pol:       # the lease is one of ks: no wrapper object may be
+            return not any((w.qual == k.qual) if exact else _is_sub(w, k) for w in Ws for k in ks)
+        # the lease is none of ks, and every wrapper object is one of them
+        return not exact and all(any(_is_sub(w, k) for k in ks) for w in Ws)
+    for T in hn:
+        c = calls_at(T, "_hash_lease_info")[0]
+        r.site(sz, c, "hashing")
+        r.require(len(c.args) == 1 and not c.keywords and attr_path(c.args[0]) == lp, sz, sz.loc(c),
+                  "_hash_lease_info is given %s, not the lease whose type was tested" % src(sz, c))
+        for (t, w) in find_path_avoiding(cfg, lambda x: x is T, gate_edge=unhashed_edge,
+                                         kill=lambda n: lp in node_stores(n) and n is not T):
+            r.violation(sz, sz.loc(c), "serialize can hash the secrets of a lease that is not known to be un-hashed: no type test that "
+                        "excludes %s guards %s, so a stored (already hashed) lease is hashed again when it is written back; %s "
+                        "(path: %s)" % (wnames, src(sz, c), consequence, w.brief()), w)
+    r.count(len(cfg.nodes))
+
+    # (b) the type test can tell the two representations apart
+    for W in Ws:
+        for K in Ks:
+            r.require(not _is_sub(W, K), W.qual, _cls_loc(W), "%s is a subclass of %s: isinstance(lease, %s) holds for stored leases too, "
+                      "serialize hashes their already-hashed secrets again; %s" % (W.name, K.name, K.name, consequence))
+
+    # (c) lease-producing methods keep the wrapper
+    closed, reported = set(), set()
+    pattrs = set()
+    for W in Ws:
+        names, pattr = proxied_interface(idx, W)
+        if names is None:
+            continue          # nothing is forwarded: a missing method is an AttributeError, not a silent unwrapping
+        pattrs.add(pattr)
+        wrep = _Rep(idx, W)
+        for K in Ks:
+            krep = _Rep(idx, K)
+            for m in sorted(names):
+                f = K.lookup(m)
+                if f is None or not krep.method(f, any):
+                    continue
+                users = [cs for cs in real_sites(cg, m) if cs.fn.cls is None or cs.fn.cls.qual not in (K.qual, W.qual)]
+                if not users:
+                    continue      # nobody asks a lease for it
+                r.site(f, None, "lease-producing interface method, used by %s" % short(users[0].fn))
+                g = W.lookup(m)
+                if g is None:
+                    reported.add(m)
+                    r.violation(W.qual, _cls_loc(W), "%s does not override %s: proxyForInterface forwards it to the wrapped %s, which "
+                                "returns a bare %s holding the already-hashed secrets; %s.serialize takes that for a cleartext lease and "
+                                "hashes the secrets a second time when %s writes it back; %s"
+                                % (W.name, m, short(f), K.name, hz.name, short(users[0].fn), consequence))
+                elif not wrep.method(g, all):
+                    reported.add(m)
+                    r.violation(g, g.loc(), "%s can return something that is not a %s (%s): a lease produced from a stored one must stay "
+                                "in the hashed wrapper, otherwise %s.serialize hashes its already-hashed secrets again; %s"
+                                % (short(g), W.name, "; ".join(src(g, n) for n in func_own_nodes(g) if isinstance(n, ast.Return))[:160],
+                                   hz.name, consequence))
+                else:
+                    closed.add(m)
+
+    # (d) what is written back
+    wreps = [_Rep(idx, W) for W in Ws]
+    for (cq, kind) in CONTAINERS:
+        ci = idx.cls(cq)
+        n_w = 0
+        for top in ci.methods.values():
+            for fn in [top] + list(top.nested.values()):
+                defs = all_defs(fn)
+                opaque = {nm for nm, ds in defs.items() if any(d is None for d in ds)}
+                seen_defs = set()
+
+                def classify(e, depth=0):
+                    if depth > 6:
+                        raise AnalysisError("%s: cannot follow the lease written back" % short(fn))
+                    if isinstance(e, ast.Name):
+                        ds = defs.get(e.id)
+                        if not ds:
+                            if e.id not in fn.params:
+                                raise AnalysisError("%s: cannot tell where the written lease %s comes from" % (short(fn), e.id))
+                            return
+                        for d in ds:
+                            if d is not None and id(d) not in seen_defs:
+                                seen_defs.add(id(d))
+                                classify(d, depth + 1)
+                        return
+                    if isinstance(e, ast.Attribute) and e.attr in pattrs and attr_path(e.value) != "self":
+                        r.violation(fn, fn.loc(e), "%s writes back %s, the plain lease taken out of its hashed wrapper: the v2 serializer "
+                                    "hashes its already-hashed secrets again; %s" % (short(fn), src(fn, e), consequence))
+                        return
+                    if isinstance(e, ast.Call):
+                        f = e.func
+                        if any(isinstance(x, ast.Attribute) and x.attr in pattrs and attr_path(x.value) != "self" for x in ast.walk(e)):
+                            r.violation(fn, fn.loc(e), "%s writes back %s, built from the plain lease inside the hashed wrapper: the v2 "
+                                        "serializer hashes its already-hashed secrets again; %s" % (short(fn), src(fn, e), consequence))
+                            return
+                        if _imported_name(fn, e) in _COPIES and e.args:
+                            return classify(e.args[0], depth + 1)
+                        k = idx.resolve_expr_to_class(fn.module, f) if isinstance(f, (ast.Name, ast.Attribute)) else None
+                        if k is not None and any(_is_sub(k, K) for K in Ks):
+                            used = {x.id for a in list(e.args) + [kw.value for kw in e.keywords] for x in ast.walk(a) if isinstance(x, ast.Name)}
+                            if used & opaque:
+                                r.violation(fn, fn.loc(e), "%s writes back a new %s built from the stored lease (%s): on a v2 container its "
+                                            "secrets are already hashed and the serializer hashes them again; %s"
+                                            % (short(fn), k.name, ", ".join(sorted(used & opaque)), consequence))
+                            return
+                        if isinstance(f, ast.Attribute) and isinstance(f.value, ast.Name) and f.value.id != "self":
+                            classify(f.value, depth + 1)
+                            if f.attr in closed:
+                                r.site(fn, e, "derived lease written back")
+                            elif f.attr not in reported:
+                                g = [W.lookup(f.attr) for W in Ws]
+                                if not all(g_ is not None and wr.method(g_, all) for (g_, wr) in zip(g, wreps)):
+                                    r.violation(fn, fn.loc(e), "%s writes back %s, but %s does not keep the result of %s in the hashed "
+                                                "wrapper; %s" % (short(fn), src(fn, e), wnames, f.attr, consequence))
+                            return
+                    raise AnalysisError("%s: cannot classify the lease written back (%s)" % (short(fn), src(fn, e)))
+                for c in calls_in_func(fn, "_write_lease_record"):
+                    if attr_path(c.func) != "self._write_lease_record" or len(c.args) != 3 or c.keywords:
+                        raise AnalysisError("%s: unexpected _write_lease_record call %s" % (short(fn), src(fn, c)))
+                    n_w += 1
+                    classify(c.args[2])
+        if n_w < 3:
+            raise AnchorVanished("%s: lease record writes not found (%d)" % (cq, n_w))
+
+
 def run(ctx: Context):
     idx = ctx.idx
     cg = get_callgraph(idx)
@@ -577,7 +890,11 @@ def run(ctx: Context):
         def hashed(n):
             v = assign_value(n, lp)
             return isinstance(v, ast.Call) and call_tail(v) == "_hash_lease_info" and len(v.args) == 1 and attr_path(v.args[0]) == lp
-        notclear = lambda n, lab: fnm.edge_fact(n, lab) == ("false", "isinstance(%s, LeaseInfo)" % lp, None)
+        # (a lease that passed isinstance(lease, HashedLeaseInfo) is not a cleartext lease either - as long as the name is
+        # not re-bound to a wrapper this function made itself without hashing)
+        rebound = any(lp in node_stores(n) and not hashed(n) for n in cfg.nodes)
+        notclear = lambda n, lab: fnm.edge_fact(n, lab) == ("false", "isinstance(%s, LeaseInfo)" % lp, None) or (
+            not rebound and fnm.edge_fact(n, lab) == ("truth", "isinstance(%s, HashedLeaseInfo)" % lp, None))
         for T in tn:
             c = calls_at(T, "_to_data")[0]
             r.site(sz, c, "serialize")
@@ -729,18 +1046,38 @@ def run(ctx: Context):
                   "only the expiration time and keeps the hashed wrapper", expected=6) as r:
         H = "storage.lease:HashedLeaseInfo"
         L = "storage.lease:LeaseInfo"
-        f1 = idx.func(H + ".is_renew_secret")
-        r.site(f1, None)
-        cp = first_positional_params(f1)[0]
-        v = only_return(f1).value
-        r.require(is_super_call(v, "is_renew_secret") and len(v.args) == 1 and norm(v.args[0], f1) == "self._hash(%s)" % cp, f1, f1.loc(),
-                  "HashedLeaseInfo.is_renew_secret compares %s, not self._hash(candidate_secret), with the stored hash" % src(f1, v))
-        f2 = idx.func(H + ".is_cancel_secret")
-        r.site(f2, None)
-        cp2 = first_positional_params(f2)[0]
-        cfg = f2.cfg()
-        fnm = FlowNorm(f2)
-        for n in cfg.find(is_return):
+        hc = idx.cls(H)
+
+        def wrapper_method(name, consequence):
+            """The wrapper's own `name`.  When it is absent although the wrapped class still has it and the proxied interface
+            still declares it, proxyForInterface forwards the call to the wrapped LeaseInfo: the override was removed, which is
+            the defect itself (not a vanished anchor)."""
+            g_ = hc.lookup(name)
+            if g_ is not None:
+                return g_
+            iface, pattr = proxied_interface(idx, hc)
+            inner = idx.cls(L).lookup(name)
+            if iface is None or inner is None or name not in iface:
+                raise AnchorVanished("function allmydata.%s.%s" % (H, name))
+            r.violation(hc.qual, "%s:%d" % (hc.module.relpath, hc.node.lineno),
+                        "HashedLeaseInfo does not override %s: proxyForInterface forwards it to the wrapped %s, %s"
+                        % (name, short(inner), consequence))
+            return None
+        f1 = wrapper_method("is_renew_secret", "which compares the un-hashed candidate with the stored hash: no secret ever matches "
+                            "on a v2 container, renewals fail and every add_lease appends a duplicate")
+        if f1 is not None:
+            r.site(f1, None)
+            cp = first_positional_params(f1)[0]
+            v = only_return(f1).value
+            r.require(is_super_call(v, "is_renew_secret") and len(v.args) == 1 and norm(v.args[0], f1) == "self._hash(%s)" % cp, f1, f1.loc(),
+                      "HashedLeaseInfo.is_renew_secret compares %s, not self._hash(candidate_secret), with the stored hash" % src(f1, v))
+        f2 = wrapper_method("is_cancel_secret", "which compares the un-hashed candidate with the stored hash")
+        if f2 is not None:
+            r.site(f2, None)
+            cp2 = first_positional_params(f2)[0]
+            cfg = f2.cfg()
+            fnm = FlowNorm(f2)
+        for n in (cfg.find(is_return) if f2 is not None else []):
             v = n.ast.value
             ok = is_super_call(v, "is_cancel_secret") and len(v.args) == 1
             r.require(ok, f2, f2.loc(n.ast), "is_cancel_secret returns %s" % src(f2, v))
@@ -776,16 +1113,37 @@ def run(ctx: Context):
         ok = isinstance(v, ast.Call) and call_name(v) == "attr.assoc" and len(v.args) == 1 and attr_path(v.args[0]) == "self" \
             and [(k.arg, attr_path(k.value)) for k in v.keywords] == [("_expiration_time", gp)]
         r.require(ok, g, g.loc(), "LeaseInfo.renew returns %s, not a copy differing only in _expiration_time=new_expire_time" % src(g, v))
-        g = idx.func(H + ".renew")
-        r.site(g, None)
-        gp = first_positional_params(g)[0]
-        v = only_return(g).value
-        ok = isinstance(v, ast.Call) and call_name(v) == "attr.assoc" and len(v.args) == 1 and attr_path(v.args[0]) == "self" \
-            and len(v.keywords) == 1 and v.keywords[0].arg == "_lease_info" and is_super_call(v.keywords[0].value, "renew") \
-            and [attr_path(x) for x in v.keywords[0].value.args] == [gp]
-        r.require(ok, g, g.loc(), "HashedLeaseInfo.renew returns %s: the renewed lease must stay wrapped (its secrets are already "
-                  "hashed and would be hashed again on write)" % src(g, v))
-        hc = idx.cls(H)
+        g = wrapper_method("renew", "which returns a bare LeaseInfo holding the already-hashed secrets: HashedLeaseSerializer.serialize "
+                           "takes it for a cleartext lease and hashes the secrets a second time when the renewed record is written "
+                           "back, so the lease no longer answers to its secret (renewals fail, add_lease appends duplicates)")
+        if g is not None:
+            r.site(g, None)
+            gp = first_positional_params(g)[0]
+            v = deref(g, only_return(g).value)
+
+            def renewed_inner(x):
+                """the wrapped lease's own renew(new_expire_time)"""
+                x = deref(g, x)
+                return isinstance(x, ast.Call) and not x.keywords and [attr_path(deref(g, a)) for a in x.args] == [gp] \
+                    and (is_super_call(x, "renew") or attr_path(x.func) == "self._lease_info.renew")
+            ok = False
+            if isinstance(v, ast.Call):
+                kws = {k.arg: k.value for k in v.keywords}
+                full = _imported_name(g, v)
+                if full in ("attr.assoc", "attr.evolve", "attrs.evolve"):
+                    # a copy of the wrapper in which only the wrapped lease is replaced by its renewed copy
+                    field = "_lease_info" if full == "attr.assoc" else "lease_info"
+                    ok = [attr_path(a) for a in v.args] == ["self"] and set(kws) == {field} and renewed_inner(kws[field])
+                elif idx.resolve_expr_to_class(g.module, v.func) is hc or attr_path(v.func) == "self.__class__" or (
+                        isinstance(v.func, ast.Call) and norm_plain(v.func) == "type(self)"):
+                    # a new wrapper around the renewed copy, with the same hash function
+                    a_ = list(v.args)
+                    li_ = a_[0] if a_ else kws.get("lease_info")
+                    hf_ = a_[1] if len(a_) > 1 else kws.get("hash")
+                    ok = len(a_) + len(kws) == 2 and li_ is not None and hf_ is not None and renewed_inner(li_) \
+                        and attr_path(deref(g, hf_)) == "self._hash"
+            r.require(ok, g, g.loc(), "HashedLeaseInfo.renew returns %s: the renewed lease must stay wrapped (its secrets are already "
+                      "hashed and would be hashed again on write)" % src(g, v))
         r.require(any(isinstance(b, ast.Call) and call_name(b) == "proxyForInterface" and len(b.args) == 2
                       and isinstance(b.args[1], ast.Constant) and b.args[1].value == "_lease_info" for b in hc.base_exprs),
                   hc.qual, "%s:%d" % (hc.module.relpath, hc.node.lineno), "HashedLeaseInfo no longer proxies ILeaseInfo to _lease_info")
@@ -1560,3 +1918,11 @@ def run(ctx: Context):
                                 "need to move): a renewal with a known secret is reported as 'no such lease', and add_or_renew_lease "
                                 "answers that by adding a duplicate lease (path: %s)" % (short(fn), src(fn, m.ast), w.brief()), w)
                     break
+
+    # -- 12. a stored (hashed) lease never comes back to the serializer as a plain lease ---------------------------------------
+    with ctx.rule("C25.12", "R1/R5", "the hashed lease representation is closed: HashedLeaseSerializer.serialize hashes only under a type "
+                  "test no wrapper object passes, the wrapper is not a plain lease, every lease-producing ILeaseInfo method that is "
+                  "used is overridden by the wrapper and returns wrappers, and the containers write back only given / stored / "
+                  "wrapper-derived leases", expected=4) as r:
+        hashed_representation_closed(idx, cg, r, "the rewritten lease no longer answers to its renew secret: renew_lease reports an "
+                                     "unknown secret and add_lease appends a duplicate instead of renewing")
